@@ -16,9 +16,11 @@ by `Parser.ParseValExp`).
 * `nextLex`/`lexAll`: the tokenizer restricted to what can occur in a value
   expression: punctuation, strings (`tokStringRule`), numbers (the numeric
   branch, `Martian.Lexer.numTok`), identifiers and the keyword table, ASCII
-  white space and `#` comments.  Bytes ≥ 0x80 outside a string literal are
-  reported as invalid (the real lexer accepts Unicode white space there; the
-  harness does not generate it).
+  and Unicode white space (`leadingSpace`), `#` comments (`tokCommentRule`,
+  which stops before an invalid UTF-8 sequence and before U+FFFD); and
+  `@include` (INCLUDE_DIRECTIVE, used by `Martian.FormatFile` only: no
+  production below the file level has it).  Any other byte ≥ 0x80 outside a
+  string literal is INVALID, as in the real lexer.
 * `pExp` …: a recursive-descent reader for `exp` (goyacc generates an LALR(1)
   automaton from grammar.y for the same language; tied by correspondence on
   generated and near-miss texts), `parseValExp` for the start symbol
@@ -234,10 +236,49 @@ def wordLexeme (w : Bytes) : Lexeme :=
     | [c] => if isAlpha c then .tok (.id w) else .invalid
     | [] => .invalid
 
-/-- a `#` comment: up to and including the end of the line -/
+/-- `tokCommentRule` after the `#`: the comment goes on rune by rune up to and
+including the end of the line, and STOPS (the byte is not consumed) before a
+byte sequence `utf8.DecodeRune` reports as `RuneError` — an invalid sequence,
+and also a well-formed U+FFFD (`EF BF BD`), which decodes to the same value.
+(What follows is then lexed on its own: a byte ≥ 0x80 that is not white space
+is INVALID.)  `fuel` ≥ length. -/
+def commentFrom : Nat → Bytes → Nat
+  | 0, _ => 0
+  | _ + 1, [] => 0
+  | f + 1, c :: r =>
+    if c == 0x0A then 1
+    else if c < 0x80 then commentFrom f r + 1
+    else match Martian.ShellQuote.runeWidth (c :: r) with
+      | some w =>
+        if c == 0xEF && r.take 2 == [0xBF, 0xBD] then 0
+        else commentFrom f (r.drop (w - 1)) + w
+      | none => 0
+
+/-- a `#` comment (the input starts with `#`) -/
 def commentLen : Bytes → Nat
   | [] => 0
-  | c :: r => if c == 0x0A then 1 else commentLen r + 1
+  | _ :: r => commentFrom (r.length + 1) r + 1
+
+/-- the non-ASCII runes of `unicode.IsSpace` (U+0085, U+00A0, U+1680,
+U+2000–U+200A, U+2028, U+2029, U+202F, U+205F, U+3000): the length of the one
+at the head of the input, 0 if there is none (`leadingSpace`) -/
+def uniSpaceLen : Bytes → Nat
+  | c :: x :: r =>
+    if c == 0xC2 && (x == 0x85 || x == 0xA0) then 2
+    else match r with
+      | y :: _ =>
+        if (c == 0xE1 && x == 0x9A && y == 0x80) ||
+           (c == 0xE2 && x == 0x80 && ((0x80 ≤ y && y ≤ 0x8A) || y == 0xA8 || y == 0xA9 || y == 0xAF)) ||
+           (c == 0xE2 && x == 0x81 && y == 0x9F) ||
+           (c == 0xE3 && x == 0x80 && y == 0x80) then 3 else 0
+      | [] => 0
+  | _ => 0
+
+/-- `include` -/
+def sIncludeWord : Bytes := [0x69, 0x6E, 0x63, 0x6C, 0x75, 0x64, 0x65]
+/-- `@include`: the text of the token INCLUDE_DIRECTIVE (a `.reserved` token: no word of the
+keyword table starts with `@`) -/
+def sAtInclude : Bytes := 0x40 :: sIncludeWord
 
 /-- `nextToken`: the lexeme at the head of a non-empty input and its length -/
 def nextLex (b : Bytes) : Lexeme × Nat :=
@@ -259,6 +300,11 @@ def nextLex (b : Bytes) : Lexeme × Nat :=
     else if isAlpha c || c == 0x5F then
       let w := b.takeWhile isWord
       (wordLexeme w, w.length)
+    else if c == 0x40 then
+      -- `case '@'`: `bytesPrefixString(b, "@include")`, the token INCLUDE_DIRECTIVE
+      if r.take 7 == sIncludeWord && !(r.drop 7).head?.any isWord then (.tok (.reserved sAtInclude), 8)
+      else (.invalid, 0)
+    else if 0x80 ≤ c && uniSpaceLen b ≠ 0 then (.skip, uniSpaceLen b)   -- Unicode white space
     else (.invalid, 0)
 
 /-- `Lex` until the end of the input: the token sequence the parser is fed, or
@@ -440,8 +486,9 @@ def isCanonInt (t : Bytes) : Bool :=
 
 mutual
 /-- well-formed: every string is valid UTF-8; integers fit `int64`; a float's
-text is a NUM_FLOAT token or a canonical integer (Go prints integral floats
-below 1e21 without exponent or fraction; `-0` is not canonical: F26);
+text is a NUM_FLOAT token or a canonical integer (strconv 'g' with shortest digits prints an
+integral float of magnitude below 1e6 without exponent or fraction, e.g. `100000`, and from 1e6 on
+with an exponent, `1e+06`, which is a NUM_FLOAT token; `-0` is not canonical: F26);
 map keys ascending; struct keys and reference components are identifiers; a
 reference names a call output (`X`, `X.a.b`, `X.default`) or a parameter
 (`self.x`, `self.x.a`) -/
